@@ -130,6 +130,8 @@ class LabelProbabilityInjector(Injector):
         """
         # handle data type
         ret, (target_col,) = self._preprocess(data, target_col)
+        # work on a copy: the caller's dictionary is completed below
+        class_probabilities = dict(class_probabilities)
 
         # determine all unique classes and classes not specified in args
         all_classes = np.unique(ret[:, target_col])
